@@ -1012,6 +1012,43 @@ pub fn same_language_family(pool: &Pool) -> Vec<T> {
     v
 }
 
+/// Differences (and intersections with a complement) of two SIMPLE PATTERNS - concatenations of characters, ranges,
+/// Sigma* and loops - that denote the same language, or one a sub-language of the other, although only one direction
+/// (or neither) is visible syntactically: a redundant loop beside Sigma*, a loop unrolled on the other side. Bare, and
+/// behind a common first letter (so that the derivative is the interesting term).
+pub fn redundant_loop_difference_family(pool: &Pool) -> Vec<T> {
+    let (a, bb, c) = (T::Chr(pool.a), T::Chr(pool.b), T::Chr(pool.c));
+    let star = |t: &T| T::Star(b(t));
+    let groups: Vec<Vec<T>> = vec![
+        // c Sigma*
+        vec![T::Cat2(b(&c), b(&T::All)), T::CatL(vec![c.clone(), T::All, star(&bb)]), T::CatL(vec![c.clone(), star(&bb), T::All]),
+             T::CatL(vec![c.clone(), T::All, T::Opt(b(&a))]), T::CatL(vec![c.clone(), T::All, T::All])],
+        // Sigma* a
+        vec![T::Cat2(b(&T::All), b(&a)), T::CatL(vec![star(&bb), T::All, a.clone()]), T::CatL(vec![T::All, star(&a), a.clone()]),
+             T::CatL(vec![T::All, T::Rng(pool.a, pool.a)])],
+        // Sigma+ and friends (inclusions, not equalities: the difference one way is empty)
+        vec![T::SigmaPlus, T::Cat2(b(&T::All), Box::new(star(&T::Rng(pool.a, pool.c)))), T::Cat2(b(&T::AllChar), b(&T::All)),
+             T::CatL(vec![T::All, T::AllChar, star(&bb)])],
+        // a Sigma* b
+        vec![T::CatL(vec![a.clone(), T::All, bb.clone()]), T::CatL(vec![a.clone(), T::All, star(&bb), bb.clone()]),
+             T::CatL(vec![a.clone(), star(&a), T::All, bb.clone()])],
+    ];
+    let mut v = vec![];
+    for g in &groups {
+        for (i, x) in g.iter().enumerate() {
+            for (j, y) in g.iter().enumerate() {
+                if i == j {
+                    continue;
+                }
+                v.push(T::Diff1(b(x), b(y)));
+                v.push(T::Diff1(Box::new(T::Cat2(b(&c), b(x))), Box::new(T::Cat2(b(&c), b(y)))));
+                v.push(T::And2(Box::new(T::Not(b(y))), b(x)));
+            }
+        }
+    }
+    v
+}
+
 /// Terms whose derivatives for two different classes are a FRESH term x and its complement (both created while
 /// the term is expanded for the first time): to be explored on a pristine manager.
 pub fn complementary_derivatives_family(pool: &Pool) -> Vec<T> {
